@@ -82,6 +82,13 @@ pub(crate) enum CallType {
     CatchAll,
 }
 
+/// Verification hook (only with `--cfg jaq_verif`): how a call of a local definition was classified.
+#[cfg(jaq_verif)]
+fn verif_call(_arity: usize, _typ: CallType) {
+    #[cfg(feature = "std")]
+    std::eprintln!("JAQ_VERIF Call {_arity} {_typ:?}");
+}
+
 #[derive(Clone, Debug, Default)]
 pub(crate) enum Term<T = TermId> {
     #[default]
@@ -452,6 +459,8 @@ impl<S: Copy + Ord> Locals<S> {
                     tr_ = Tr::new();
                     CallType::CatchAll
                 };
+                #[cfg(jaq_verif)]
+                verif_call(args.len(), typ);
                 let vars = self.vars.total - *vars;
                 (Term::CallDef(*id, binds(args_, args), vars, typ), tr_)
             }
@@ -462,6 +471,8 @@ impl<S: Copy + Ord> Locals<S> {
                 } else {
                     (CallType::CatchAll, Tr::new())
                 };
+                #[cfg(jaq_verif)]
+                verif_call(args.len(), typ);
                 let vars = self.vars.total - *vars;
                 (Term::CallDef(*id, binds(args_, args), vars, typ), tr_)
             }
@@ -517,6 +528,8 @@ impl<'s, F> Compiler<&'s str, F> {
             self.close_module(file, &mut errs)
         }
         let (file, module) = mods.main;
+        #[cfg(all(jaq_verif, feature = "std"))]
+        std::eprintln!("JAQ_VERIF Main 0");
         let main = self.open_module(module);
         let id = self.iterm(main);
         self.close_module(file, &mut errs);
